@@ -658,6 +658,17 @@ impl<Config: endpoint::Config> ApplicationSpace<Config> {
         // We perform decryption prior to checking for duplicate to avoid short-circuiting
         // and maintain constant-time operation.
         if self.is_duplicate(packet_number, path_id, path, publisher) {
+            //= https://www.rfc-editor.org/rfc/rfc9001#section-6.6
+            //# If the total number of received packets that fail
+            //# authentication within the connection, across all keys, exceeds the
+            //# integrity limit for the selected AEAD, the endpoint MUST immediately
+            //# close the connection with a connection error of type
+            //# AEAD_LIMIT_REACHED and not process any more packets.
+            // A forged packet may reuse an already processed packet number; reaching the
+            // integrity limit still has to close the connection.
+            if let Err(err @ ProcessingError::ConnectionError(_)) = decrypted {
+                return Err(err);
+            }
             return Err(ProcessingError::Other);
         }
 
